@@ -2,7 +2,8 @@
    during each of two full iterations of the result.  bit 1: tree differs; bit 2: counts exceed
    the cost model's (an upper bound); bit 4: the documented laziness is violated (a lazy tree iterated a leaf at
    execute time, a leaf occurrence was iterated more than once in execute + one iteration, or the
-   two iterations gave different rows / different costs). *)
+   two iterations gave different rows / different costs, or a leaf below a sort / deduplication /
+   materialization was read again after execute()). *)
 From DR Require Export Model.Lazy.
 Local Open Scope N_scope.
 
@@ -23,6 +24,19 @@ Definition counts_eqb (names : list positive) (model : list positive) (real : li
 Definition get (real : list (positive * nat)) (n : positive) : nat :=
   match List.find (fun kv => Pos.eqb (fst kv) n) real with Some kv => snd kv | None => 0%nat end.
 
+(* leaf occurrences with a flag: does an eager operation (sort, deduplication, materialization) sit above it? *)
+Fixpoint leaves_under (eager : bool) (t : tree) : list (positive * bool) :=
+  match t with
+  | Leaf n _ _ _ _ => [(n, eager)]
+  | Un o t' => leaves_under (eager || match o with Sort _ | Dedup => true | _ => false end) t'
+  | Bin _ l r => leaves_under eager l ++ leaves_under eager r
+  | Mat _ t' => leaves_under true t'
+  | Xfer _ t' | SelM _ _ t' => leaves_under eager t'
+  end.
+(* leaves all of whose occurrences are consumed by an eager operation: never touched again after execute() *)
+Definition consumed_only (t : tree) (n : positive) : bool :=
+  forallb (fun kv => negb (Pos.eqb (fst kv) n) || snd kv) (leaves_under false t).
+
 Definition check_lazy (c : lazy_case) : N :=
   let mt := build_iter (lz_prog c) in
   let c1 := if result_eqb tree_eqb mt (lz_tree c) then 0 else 1 in
@@ -35,6 +49,8 @@ Definition check_lazy (c : lazy_case) : N :=
       let c4 := if implb (lazy_tree t) (forallb (fun n => Nat.eqb (get (lz_exec c) n) 0) names)
                    && forallb (fun n => Nat.leb (get (lz_exec c) n + get (lz_iter1 c) n) (count n names)) names
                    && forallb (fun n => Nat.eqb (get (lz_iter1 c) n) (get (lz_iter2 c) n)) names
+                   && forallb (fun n => negb (consumed_only t n)
+                                        || (Nat.eqb (get (lz_iter1 c) n) 0 && Nat.eqb (get (lz_iter2 c) n) 0)) names
                    && lz_same_rows c then 0 else 4 in
       c1 + c2 + c4
   | Err _ => c1
